@@ -1,7 +1,7 @@
 (* C15/Props.v — the property theorems, nothing else.  Each is closed by [exact] of a lemma of
    Proofs.v and followed by Print Assumptions (parsed by the harness on every run). *)
 From Coq Require Import ZArith List.
-From FV Require Import Base.Res Base.BE C15.Model C15.Proofs C15.ModelDeltas C15.ProofsDeltas C15.ModelPoints C15.ProofsPoints.
+From FV Require Import Base.Res Base.BE C15.Model C15.Proofs C15.ModelDeltas C15.ProofsDeltas C15.ModelPoints C15.ProofsPoints C15.ModelTags C15.ProofsTags.
 Import ListNotations.
 Open Scope Z_scope.
 
@@ -69,3 +69,10 @@ Print Assumptions points_roundtrip.
 Example points_example : compilePoints [17; 18; 19; 20; 21; 22; 23] = Ok [7; 6; 17; 1; 1; 1; 1; 1; 1] /\
   compilePoints [3; 300; 301; 60000] = Ok [4; 0; 3; 130; 1; 41; 0; 1; 233; 51].
 Proof. split; vm_compute; reflexivity. Qed.
+
+(* table tags as identifiers (module and file names): every four-character tag over code points 16..255 -- lower/upper case, digits,
+   trailing and inner spaces, escaped characters, a leading escaped digit -- comes back from identifierToTag (tagToIdentifier tag) *)
+Theorem tag_identifier_roundtrip : forall a b c d, Forall (fun x => 16 <= x < 256) [a; b; c; d] ->
+  exists ident, tagToIdentifier [a; b; c; d] = Ok ident /\ identifierToTag ident = Ok [a; b; c; d].
+Proof. exact ProofsTags.tag_identifier_roundtrip. Qed.
+Print Assumptions tag_identifier_roundtrip.
